@@ -228,7 +228,7 @@ class C01(RenderProp):
     n_quick = 3000
     n_thorough = 40000
     required_theorems = ["C01_extract", "C01_ops_table", "C01_closures", "C01_arith", "C01_rem", "C01_concat", "C01_compare_numbers",
-                         "C01_compare_strings", "C01_truthiness", "C01_logical_operands", "C01_conditional"]
+                         "C01_compare_strings", "C01_truthiness", "C01_logical_operands", "C01_conditional", "C01_eval_scalar", "C01_eval_scalar_entry", "C01_print_scalar"]
     assumptions = ["numbers are modelled by exact rationals; Number.String by fmtG10 (validated by correspondence)",
                    "the round trip pipeline AST -> action source text -> forked text/template parser is taken as the identity (validated end to end by the correspondence)"]
     rule = ("type-directed random expression trees of the supported subset (depth <= 5 quick / 8 thorough) over 8-12 typed data "
@@ -243,7 +243,7 @@ class C02(RenderProp):
     id = "C02"
     n_quick = 1500
     n_thorough = 25000
-    required_theorems = ["C02_extract", "C02_cap_about_ten_thousand", "C02_while_never_hangs", "C02_while_stops", "C02_while_continues"]
+    required_theorems = ["C02_extract", "C02_cap_about_ten_thousand", "C02_while_never_hangs", "C02_while_stops", "C02_while_continues", "C02_if_selects", "C02_if_chain", "C02_each_array_items", "C02_each_object_items", "C02_each_missing", "C02_each_step", "C02_each_empty"]
     assumptions = ["the executor model (PugModel.Tpl.Exec) is hand-written; its agreement with tpl_exec.go is validated by the correspondence"]
     rule = ("random control-flow programs: if/else-if/else chains (boolean, numeric, string, null and undefined tests), case with "
             "default in any position, each over data arrays / literal arrays / objects (data maps and literals) / missing and empty "
@@ -374,7 +374,7 @@ class C05(RenderProp):
     id = "C05"
     n_quick = 3000
     n_thorough = 50000
-    required_theorems = ["C05_trim_only_class", "C05_false_omitted", "C05_value_escaped", "C05_value_no_quote"]
+    required_theorems = ["C05_trim_only_class", "C05_false_omitted", "C05_value_escaped", "C05_value_no_quote", "C05_true_named", "C05_order_first_occurrence", "C05_last_value_wins", "C05_class_accumulates"]
     rule = ("random attribute lists (0-7 attributes: string literals incl. padded/empty, hostile data strings, numbers as variable/literal/expression/fraction, "
             "booleans/null/undefined as literal and data, class as literal/variable/array/mixed array/empty/hostile and repeated, unescaped literals, concatenations) plus "
             "&attributes(obj) spreads (strings, booleans, class+id). Oracle: golang.org/x/net/html tokenizer reads the first tag back; its (name, value) list must equal the "
@@ -420,7 +420,7 @@ class C20(RenderProp):
     id = "C20"
     n_quick = 2000
     n_thorough = 30000
-    required_theorems = ["C20_push", "C20_pop", "C20_shift", "C20_unshift", "C20_splice", "C20_slice", "C20_length", "C20_alias_frame", "C20_splice_result_stable"]
+    required_theorems = ["C20_push", "C20_pop", "C20_shift", "C20_unshift", "C20_splice", "C20_slice", "C20_length", "C20_alias_frame", "C20_splice_result_stable", "C20_sequence"]
     rule = ("random call sequences (1-12 quick / 1-40 thorough) of push/pop/shift/unshift/sort/splice(start)/slice(start)/indexOf/index/join/length over up to 5 array "
             "variables with aliasing (var b = a) and kept results (var t = a.splice(k), var c = a.slice(k), var p = s.split(d)), number or string elements, in-range "
             "arguments, plus length/charAt/indexOf/slice/split/toUpperCase/toLowerCase on an ASCII string; every variable's content and length printed after every step. "
@@ -491,7 +491,7 @@ class C07(Prop):
     n_thorough = 8000
     procs_quick = 4
     procs_thorough = 16
-    required_theorems = ["C07_sortKeys_perm", "C07_mapKeys_perm", "C07_explicit_order"]
+    required_theorems = ["C07_sortKeys_perm", "C07_mapKeys_perm", "C07_explicit_order", "C07_render_writes_nothing_shared"]
     rule = ("documents of the C02 / C03 / C05 (spread attributes) / C20 generators plus templates that push to, assign into, sort, splice and pop everything reachable "
             "from the data: each rendered 3x on one engine, on a second engine, and in 4 (quick) / 16 (thorough) fresh processes; render histories (3-10 renders over 2-4 "
             "templates on one engine) compared with standalone renders; the caller's data deep-compared before/after. Non-trivial: every case; distinct by case.")
